@@ -1,9 +1,397 @@
-//! C06 system half (Engine B): filled in with the system engine.
-use crate::ev::PropCtx;
-use crate::rt::DynSub;
+//! C06 system half (Engine B): the *running* server.
+//!  * `running-server`: peers that do not hold the configured credential (another credential of the same protocol, an
+//!    unregistered user behind the right server key, the server key alone, random bytes, a valid handshake cut before the
+//!    credential is proven) talk to the real server process, over TCP and over UDP; the scripted target they name must
+//!    never be contacted, while a reference client that holds the credential is served before and after.
+//!  * `shared-session-id`: several registered users of one Shadowsocks 2022 UDP server use the *same* client session id
+//!    (the id is chosen by the client and visible to every holder of the server key). Each user's datagrams must be
+//!    answered to that user's own socket, under that user's key, and never to or under another's.
+use crate::ev::{Outcome, PropCtx, Tier};
+use crate::gen::Det;
+use crate::real::{Cred, Proto};
+use crate::refimpl::ss2022::{self, C22};
+use crate::refimpl::Addr;
+use crate::refside::{self, ReqOpts};
+use crate::rt::{self, DynSub, SubCheck};
+use crate::sys::cluster::{Cluster, Spec, Transport};
+use crate::sys::net::{reply_for, UdpTarget};
+use crate::sys::refpeer::{now_secs, ref_tcp_roundtrip, RefUdpClient};
+use proptest::prelude::*;
+use proptest::strategy::BoxedStrategy;
+use serde::{Deserialize, Serialize};
+use std::io::Write;
+use std::net::{Ipv4Addr, SocketAddr, SocketAddrV4, TcpListener, TcpStream};
+use std::time::{Duration, Instant};
 
-pub fn subs() -> Vec<Box<dyn DynSub>> {
-    vec![]
+#[derive(Clone, Debug, Serialize, Deserialize)]
+pub enum Intruder {
+    /// a complete, well-formed handshake under an entirely different credential of the same protocol
+    OtherCredential,
+    /// right server key, user key that is not in the table (2022 AES with users; VMess: an unregistered UUID)
+    UnregisteredUser,
+    /// the server key alone, no identity header (2022 AES with users)
+    ServerKeyOnly,
+    /// random bytes
+    Random(u16),
+    /// a valid handshake under the right credential, cut after this many bytes (1..=30: before any credential is proven)
+    Truncated(u8),
 }
 
-pub fn run(_ctx: &mut PropCtx) {}
+#[derive(Clone, Debug, Serialize, Deserialize)]
+pub struct RunningCase {
+    pub proto: Proto,
+    pub n_users: u8,
+    pub seed: u64,
+    pub udp: bool,
+    pub intruders: Vec<Intruder>,
+}
+
+pub struct RunningServer;
+
+fn is_ss(p: Proto) -> bool {
+    matches!(p, Proto::SsLegacy(_) | Proto::Ss22(_))
+}
+
+/// The intruder's credential, or None when the kind does not apply to this configuration.
+fn intruder_cred(spec: &Spec, real: &Cred, k: &Intruder) -> Option<Cred> {
+    match k {
+        Intruder::OtherCredential => {
+            let mut s2 = spec.clone();
+            s2.seed = spec.seed ^ 0x5a5a_5a5a;
+            Some(s2.cred())
+        }
+        Intruder::UnregisteredUser => {
+            let mut s2 = spec.clone();
+            s2.seed = spec.seed ^ 0x0f0f_0f0f;
+            let other = s2.cred();
+            match spec.proto {
+                Proto::Ss22(c) if c.is_aes() && !real.users.is_empty() => {
+                    let upsk = other.users.first()?.1.clone();
+                    let mut cr = real.clone();
+                    cr.client_password = Some(format!("{}:{}", real.password, upsk));
+                    Some(cr)
+                }
+                Proto::Vmess(_) => {
+                    let mut cr = real.clone();
+                    cr.client_password = Some(other.users.first()?.1.clone());
+                    Some(cr)
+                }
+                _ => None,
+            }
+        }
+        Intruder::ServerKeyOnly => match spec.proto {
+            Proto::Ss22(c) if c.is_aes() && !real.users.is_empty() => {
+                let mut cr = real.clone();
+                cr.client_password = Some(real.password.clone());
+                Some(cr)
+            }
+            _ => None,
+        },
+        Intruder::Random(_) | Intruder::Truncated(_) => Some(real.clone()),
+    }
+}
+
+fn tcp_listener() -> (TcpListener, u16) {
+    let l = TcpListener::bind(SocketAddrV4::new(Ipv4Addr::LOCALHOST, 0)).expect("harness: bind");
+    let p = l.local_addr().expect("harness: local_addr").port();
+    l.set_nonblocking(true).ok();
+    (l, p)
+}
+
+impl SubCheck for RunningServer {
+    type Case = RunningCase;
+    fn name(&self) -> &'static str {
+        "running-server"
+    }
+    fn strategy(&self, _tier: Tier) -> BoxedStrategy<RunningCase> {
+        let kind = prop_oneof![
+            3 => Just(Intruder::OtherCredential),
+            3 => Just(Intruder::UnregisteredUser),
+            2 => Just(Intruder::ServerKeyOnly),
+            2 => (1u16..2000).prop_map(Intruder::Random),
+            2 => (1u8..=30).prop_map(Intruder::Truncated),
+        ];
+        (crate::gen::proto_strategy(), 0u8..4, 1u64..1_000_000, any::<bool>(), proptest::collection::vec(kind, 1..6))
+            .prop_map(|(proto, n_users, seed, udp, intruders)| RunningCase { proto, n_users, seed, udp: udp && is_ss(proto), intruders })
+            .boxed()
+    }
+    fn workers(&self) -> usize {
+        (rt::threads() / 2).clamp(1, 8)
+    }
+    fn max_shrink_iters(&self) -> u32 {
+        20
+    }
+    fn confirm_runs(&self) -> u32 {
+        2
+    }
+    fn exec(&self, c: &RunningCase) -> Outcome {
+        let mut out = Outcome::new();
+        let mut spec = Spec::new(c.proto, Transport::Tcp);
+        spec.udp = c.udp;
+        spec.n_users = c.n_users;
+        spec.user = (c.seed % 5) as u8;
+        spec.seed = c.seed;
+        spec.workers = 2 + (c.seed % 4) as u8;
+        let mut cl = match Cluster::start(&spec) {
+            Ok(cl) => cl,
+            Err(_) => return out, // start-up is C16's business
+        };
+        out.label(format!("proto:{}", c.proto.short()));
+        out.label(if c.udp { "datagrams" } else { "streams" });
+        let deadline = Duration::from_secs(if rt::failed_already() { 3 } else { 10 });
+        // the holder of the credential is served (otherwise "nobody is served" would satisfy the oracle)
+        let control = |cl: &Cluster, tag: u8| -> Result<(), String> {
+            if c.udp {
+                let t = UdpTarget::spawn(tag, true);
+                let rc = RefUdpClient::new(&cl.cred, cl.server_port, 0xc060_0000_0000_0000 ^ (c.seed << 8) ^ tag as u64)?;
+                let payload = format!("control-{}", tag).into_bytes();
+                for attempt in 1..=3u64 {
+                    rc.send(attempt, &Addr::V4([127, 0, 0, 1], t.port), &payload);
+                    let got = rc.recv_all(Duration::from_millis(400));
+                    if got.iter().any(|r| matches!(r, Ok((_, _, p)) if *p == reply_for(tag, &payload))) {
+                        return Ok(());
+                    }
+                }
+                Err("a reference datagram client that holds the credential got no answer in three attempts".into())
+            } else {
+                ref_tcp_roundtrip(&cl.cred, cl.server_port, b"control request", b"control answer", deadline)
+            }
+        };
+        if control(&cl, 1).is_err() {
+            // C03 / C16 decide whether the credential holder is served; without that this case says nothing
+            out.label("control-not-served");
+            return out;
+        }
+        let mut d = Det::new(c.seed, "c06-sys");
+        let mut watched: Vec<(String, Option<TcpListener>, Option<UdpTarget>)> = vec![];
+        for (i, k) in c.intruders.iter().enumerate() {
+            let Some(icred) = intruder_cred(&spec, &cl.cred, k) else { continue };
+            let what = format!("{:?}", k);
+            if c.udp {
+                let t = UdpTarget::spawn(100 + i as u8, true);
+                let taddr = Addr::V4([127, 0, 0, 1], t.port);
+                let Ok(rc) = RefUdpClient::new(&icred, cl.server_port, 0xbad0_0000_0000_0000 ^ (c.seed << 8) ^ i as u64) else { continue };
+                let wire = match k {
+                    Intruder::Random(n) => d.bytes(*n as usize),
+                    Intruder::Truncated(n) => {
+                        let w = rc.build(1, &taddr, b"intruder datagram");
+                        w[..(*n as usize).min(w.len().saturating_sub(1))].to_vec()
+                    }
+                    _ => rc.build(1, &taddr, b"intruder datagram"),
+                };
+                rc.send_wire(&wire);
+                watched.push((what, None, Some(t)));
+            } else {
+                let (l, port) = tcp_listener();
+                let taddr = Addr::V4([127, 0, 0, 1], port);
+                let wire = match k {
+                    Intruder::Random(n) => d.bytes(*n as usize),
+                    _ => {
+                        let Ok(f) = refside::ref_client_request(&icred, &taddr, &[b"intruder payload".to_vec()], &ReqOpts::new(now_secs()), &mut d) else { continue };
+                        match k {
+                            Intruder::Truncated(n) => f.wire[..(*n as usize).min(f.wire.len())].to_vec(),
+                            _ => f.wire,
+                        }
+                    }
+                };
+                if let Ok(mut s) = TcpStream::connect_timeout(&SocketAddr::V4(SocketAddrV4::new(Ipv4Addr::LOCALHOST, cl.server_port)), deadline) {
+                    let _ = s.write_all(&wire);
+                    if matches!(k, Intruder::Truncated(_)) || i % 2 == 0 {
+                        let _ = s.shutdown(std::net::Shutdown::Write);
+                    }
+                    // the connection stays open until the verdict
+                    watched.push((what, Some(l), None));
+                    std::mem::forget(s);
+                } else {
+                    continue;
+                }
+            }
+        }
+        // a second served control flow gives the server the time it needs for a dial, many times over
+        let t0 = Instant::now();
+        let after = control(&cl, 2);
+        while t0.elapsed() < Duration::from_millis(350) {
+            std::thread::sleep(Duration::from_millis(10));
+        }
+        out.weight = watched.len().max(1) as u64;
+        for (what, l, t) in &watched {
+            let contacted = match (l, t) {
+                (Some(l), _) => l.accept().is_ok(),
+                (_, Some(t)) => !t.received().is_empty(),
+                _ => false,
+            };
+            if contacted {
+                out.fail(
+                    format!("running-server/{}/target-contacted-for-a-peer-without-the-credential", crate::props::c03::family(c.proto)),
+                    format!("{} ({}): the running server contacted the target named by an intruder of kind {} [{}]\n{}", c.proto.short(), if c.udp { "udp" } else { "tcp" }, what, spec.short(), crate::ev::truncate(&cl.logs(6), 1200)),
+                );
+                return out;
+            }
+        }
+        if !watched.is_empty() && after.is_ok() {
+            let kinds: Vec<String> = watched.iter().map(|(w, _, _)| w.split('(').next().unwrap_or("").to_string()).collect();
+            out.nontrivial(format!("{}|{}|{:?}", c.proto.short(), c.udp, kinds));
+        }
+        if cl.health().is_err() {
+            out.label("process-trouble-left-to-C07-C08");
+        }
+        out
+    }
+}
+
+// ------------------------------------------------------------------------------------------------ users sharing a session id
+
+#[derive(Clone, Debug, Serialize, Deserialize)]
+pub struct SharedSidCase {
+    pub cipher: C22,
+    pub n_users: u8,
+    pub seed: u64,
+    /// (user, number of datagrams in this burst); all users use the same client session id
+    pub bursts: Vec<(u8, u8)>,
+    /// every user counts its packet ids from 1 (they are different sessions: different keys) instead of from disjoint ranges
+    pub own_counters: bool,
+}
+
+pub struct SharedSessionId;
+
+impl SubCheck for SharedSessionId {
+    type Case = SharedSidCase;
+    fn name(&self) -> &'static str {
+        "shared-session-id"
+    }
+    fn strategy(&self, _tier: Tier) -> BoxedStrategy<SharedSidCase> {
+        (proptest::sample::select(vec![C22::Aes128, C22::Aes256]), 2u8..5, 1u64..1_000_000, proptest::collection::vec((0u8..4, 1u8..4), 2..8), any::<bool>())
+            .prop_map(|(cipher, n_users, seed, bursts, own_counters)| SharedSidCase { cipher, n_users, seed, bursts, own_counters })
+            .boxed()
+    }
+    fn workers(&self) -> usize {
+        (rt::threads() / 2).clamp(1, 8)
+    }
+    fn max_shrink_iters(&self) -> u32 {
+        20
+    }
+    fn confirm_runs(&self) -> u32 {
+        2
+    }
+    fn exec(&self, c: &SharedSidCase) -> Outcome {
+        let mut out = Outcome::new();
+        let mut spec = Spec::new(Proto::Ss22(c.cipher), Transport::Tcp);
+        spec.udp = true;
+        spec.n_users = c.n_users;
+        spec.seed = c.seed;
+        spec.workers = 2 + (c.seed % 4) as u8;
+        let mut cl = match Cluster::start(&spec) {
+            Ok(cl) => cl,
+            Err(_) => return out,
+        };
+        let n = c.n_users as usize;
+        let sid = 0x5a4e_0000_0000_0000u64 ^ (c.seed << 8);
+        let target = UdpTarget::spawn(7, true);
+        let taddr = Addr::V4([127, 0, 0, 1], target.port);
+        // one reference client per user, all on the same session id, each on its own socket
+        let mut clients: Vec<RefUdpClient> = vec![];
+        for u in 0..n {
+            let mut s2 = spec.clone();
+            s2.user = u as u8;
+            match RefUdpClient::new(&s2.cred(), cl.server_port, sid) {
+                Ok(rc) => clients.push(rc),
+                Err(_) => return out,
+            }
+        }
+        let mut next_pid: Vec<u64> = (0..n).map(|u| if c.own_counters { 1 } else { 1 + 1000 * u as u64 }).collect();
+        let mut sent: Vec<Vec<Vec<u8>>> = vec![vec![]; n];
+        let mut users_seen = std::collections::BTreeSet::new();
+        for (u, k) in &c.bursts {
+            let u = *u as usize % n;
+            users_seen.insert(u);
+            for _ in 0..*k {
+                let payload = format!("user{}-dgram{}", u, next_pid[u]).into_bytes();
+                clients[u].send(next_pid[u], &taddr, &payload);
+                next_pid[u] += 1;
+                sent[u].push(payload);
+                std::thread::sleep(Duration::from_millis(4));
+            }
+        }
+        std::thread::sleep(Duration::from_millis(if rt::failed_already() { 250 } else { 500 }));
+        out.weight = sent.iter().map(|s| s.len()).sum::<usize>().max(1) as u64;
+        out.label(format!("proto:ss/{}", c.cipher.name()));
+        if users_seen.len() >= 2 {
+            out.label("two-or-more-users-on-one-session-id");
+            out.nontrivial(format!("{}|{}|{:?}|{}", c.cipher.name(), c.n_users, c.bursts.iter().map(|(u, _)| *u as usize % n).collect::<Vec<_>>(), c.own_counters));
+        }
+        // what arrived at each user's socket
+        let mut answered: Vec<usize> = vec![0; n];
+        for u in 0..n {
+            let raws = clients[u].recv_raw(Duration::from_millis(150), 64);
+            for w in &raws {
+                match ss2022::decode_udp_server(c.cipher, &clients[u].keys.client_upsk, w) {
+                    Ok(dd) => {
+                        let mine = sent[u].iter().any(|p| reply_for(7, p) == dd.pkt.payload);
+                        if !mine {
+                            out.fail(
+                                "shared-session-id/reply-to-another-users-datagram",
+                                format!("user {} received, under its own key, the answer to a datagram it never sent: {:?} [{} users on session id {:#x}; bursts {:?}]", u, String::from_utf8_lossy(&dd.pkt.payload), n, sid, c.bursts),
+                            );
+                            return out;
+                        }
+                        answered[u] += 1;
+                    }
+                    Err(_) => {
+                        // sealed under whose key?
+                        if let Some(v) = (0..n).find(|v| *v != u && ss2022::decode_udp_server(c.cipher, &clients[*v].keys.client_upsk, w).is_ok()) {
+                            out.fail(
+                                "shared-session-id/answer-under-another-users-key",
+                                format!(
+                                    "a datagram sealed under user {}'s key was sent to user {}'s socket: {} users use client session id {:#x}, each from its own socket with its own key; bursts (user, count) {:?}\n{}",
+                                    v,
+                                    u,
+                                    n,
+                                    sid,
+                                    c.bursts,
+                                    crate::ev::truncate(&cl.logs(4), 800)
+                                ),
+                            );
+                            return out;
+                        }
+                        // opens under nobody's key: C03's business
+                    }
+                }
+            }
+        }
+        // each user that sent is served at all (loss alone is tolerated: one answer per user suffices; confirmed by re-running)
+        if !out.failed() {
+            if let Some(u) = (0..n).find(|u| !sent[*u].is_empty() && answered[*u] == 0) {
+                // retry with fresh ids before calling it non-delivery
+                let mut ok = false;
+                for _ in 0..3 {
+                    let payload = format!("user{}-retry{}", u, next_pid[u]).into_bytes();
+                    clients[u].send(next_pid[u], &taddr, &payload);
+                    next_pid[u] += 1;
+                    let got = clients[u].recv_raw(Duration::from_millis(400), 4);
+                    if got.iter().any(|w| ss2022::decode_udp_server(c.cipher, &clients[u].keys.client_upsk, w).map(|dd| dd.pkt.payload == reply_for(7, &payload)).unwrap_or(false)) {
+                        ok = true;
+                        break;
+                    }
+                }
+                if !ok {
+                    out.fail(
+                        "shared-session-id/user-not-served-while-another-user-uses-the-same-session-id",
+                        format!("user {} sent {} datagrams and three more with fresh packet ids and got no answer under its key, while other users of the table use the same client session id {:#x}; bursts {:?}\n{}", u, sent[u].len(), sid, c.bursts, crate::ev::truncate(&cl.logs(4), 800)),
+                    );
+                }
+            }
+        }
+        let _ = cl.health();
+        out
+    }
+}
+
+pub fn subs() -> Vec<Box<dyn DynSub>> {
+    vec![Box::new(RunningServer), Box::new(SharedSessionId)]
+}
+
+pub fn run(ctx: &mut PropCtx) {
+    let t = ctx.tier;
+    rt::run_sub(ctx, &RunningServer, t.pick(60, 1200));
+    rt::run_sub(ctx, &SharedSessionId, t.pick(24, 600));
+}
